@@ -2041,8 +2041,12 @@ func (sa *Application) RemoveAllAllocations() []*Allocation {
 
 	// if an app doesn't have any allocations and the user doesn't have other applications,
 	// the user tracker is nonexistent. We don't want to decrease resource usage in this case.
-	if ugm.GetUserManager().GetUserTracker(sa.user.User) != nil && resources.IsZero(sa.pending) {
-		sa.decUserResourceUsage(resources.Add(sa.allocatedResource, sa.allocatedPlaceholder), true)
+	// The usage tracked for the user must follow the allocations that are removed here, also while asks are still
+	// pending. The application itself is only removed from the tracker when nothing is pending anymore.
+	total := resources.Add(sa.allocatedResource, sa.allocatedPlaceholder)
+	noPending := resources.IsZero(sa.pending)
+	if ugm.GetUserManager().GetUserTracker(sa.user.User) != nil && (noPending || !resources.IsZero(total)) {
+		sa.decUserResourceUsage(total, noPending)
 	}
 	// cleanup allocated resource for app (placeholders and normal)
 	sa.allocatedResource = resources.NewResource()
